@@ -8,7 +8,7 @@ package comments
 // ---- the marker; a marker on the wrong kind of declaration is an error; every method/variable gets the
 // ---- setting lines of ITS OWN doc comment ----
 //@ func parseGenDecl
-//@   props C19
+//@   props C19 C13
 //@   propagates
 //@   requires@C13 decl != nil && fset != nil && pkg != nil
 //@   at call parseFunctions#1 assert strings.Contains(parse.CommentToString(decl.Doc), "goverter:variables") && arg3 == parse.CommentToString(decl.Doc)
